@@ -36,7 +36,7 @@ class Skein(object):
 
     def _initstate(self):
         self.G = b'\0'*self.Nb
-        if self.key!=None: self.update(self.key,'key')
+        if self.key: self.update(self.key,'key')
         self.update(self.C,'cfg')
         if self.prs: self.update(self.prs,'prs')
         if self.PK : self.update(self.PK,'PK')
